@@ -111,7 +111,14 @@ Proof.
   - rewrite U. apply andb_prop in H0. destruct H0 as [A B]. destruct (plus sp), (space sp); try discriminate. cbn. now rewrite andb_false_r.
 Qed.
 
-(* %c with the flags C defines ('-' and a width) *)
-Theorem format_c_directive : forall sp n,
-  prec sp = None -> zero sp = false -> go_fmt_c sp n = c_fmt_c sp n.
-Proof. intros sp n HP HZ. unfold go_fmt_c, c_fmt_c. rewrite HP, HZ. reflexivity. Qed.
+(* %c and %s: byte-counted width and precision, as in C *)
+Theorem format_c_directive : forall sp n, go_fmt_c sp n = c_fmt_c sp n.
+Proof. intros sp n. unfold go_fmt_c, go_fmt_s, c_fmt_c. reflexivity. Qed.
+
+Theorem format_s_directive : forall sp s,
+  (match prec sp with Some p => 0 <= p | None => True end) -> go_fmt_s sp s = c_fmt_s sp s.
+Proof.
+  intros sp s Hp. unfold go_fmt_s, c_fmt_s. destruct (prec sp) as [p|]; [|reflexivity].
+  destruct (Z.ltb_spec p (len s)); [reflexivity|].
+  rewrite firstn_all2 by (unfold len in *; lia). reflexivity.
+Qed.
